@@ -58,7 +58,7 @@ Theorem ancestors_equal_height_refuted :
 Proof.
   exists ex_store, 2%N, 3%N. split; [exact ex_valid|]. split; [exact ex_regular_2|].
   assert (E: ancestors ex_store 2 3 = AOk []) by (vm_compute; reflexivity).
-  split; [exact E|]. rewrite E. cbn. intros [(H & _)|(_ & H)]; [discriminate|].
+  split; [exact E|]. rewrite E. cbv beta iota delta [ancestors_answer_ok]. intros [(H & _)|(_ & H)]; [discriminate|].
   apply (path_nonempty _ _ _ _ H). reflexivity.
 Qed.
 
@@ -99,27 +99,20 @@ Proof.
   { apply (walk_reach late_store 2%nat). revert Eb. vm_compute. intros Eb. inversion Eb. right. left. reflexivity. }
   exists late_store, 3%N, 5%N, rb. split; [exact late_valid|]. split; [exact Eb|]. split; [exact Hr|].
   assert (E: ancestors_fixed late_store 3 5 = AErr EHigher) by (vm_compute; reflexivity).
-  split; [vm_compute; reflexivity|]. split; [exact E|]. rewrite E. cbn.
+  split; [vm_compute; reflexivity|]. split; [exact E|]. rewrite E. cbv beta iota delta [ancestors_answer_ok].
   intros (ra & rb' & _ & Eb' & Hn). apply Hn. congruence.
 Qed.
 
-(* refutation 3: common ancestor of the empty list - index out of range (500) on every store *)
-Theorem common_ancestor_empty_refuted : forall s, common_ancestor s [] = CPanic /\ cres_status (common_ancestor s []) = 500.
+(* formerly refuted, repaired in /repo by 5ab472d and 5c09f8d: the empty list is refused by the handler (400 ErrBindBody),
+   and "no header strictly below the lowest given height" (the list contains genesis) is answered 400 ErrAncestorNotFound *)
+Example common_ancestor_empty_fixed : forall s, common_ancestor_endpoint s [] = CBind /\ cres_status (common_ancestor_endpoint s []) = 400.
 Proof. intros s. split; reflexivity. Qed.
 
-(* refutation 4: no header strictly below the lowest given height exists (the list contains genesis):
-   the service returns (nil, nil) and the handler answers 500 *)
-Theorem common_ancestor_none_refuted :
-  exists s l hs, Valid s /\ l <> [] /\ Forall2 (fun t r => by_hash s t = Some r /\ orph r = false) l hs /\
-    common_ancestor s l = CNil /\ cres_status (common_ancestor s l) = 500.
-Proof.
-  exists ex_store, [2; 1]%N. eexists. split; [exact ex_valid|]. split; [discriminate|]. split.
-  - constructor; [split; [vm_compute; reflexivity| reflexivity]|].
-    constructor; [split; [vm_compute; reflexivity| reflexivity]| constructor].
-  - split; vm_compute; reflexivity.
-Qed.
+Example common_ancestor_none_fixed :
+  common_ancestor_endpoint ex_store [2; 1]%N = CNil /\ cres_status (common_ancestor_endpoint ex_store [2; 1]%N) = 400.
+Proof. vm_compute. split; reflexivity. Qed.
 
-(* refutation 5: below a late-parent orphan the lock-step walk misses the real common ancestor:
+(* refutation 3: below a late-parent orphan the lock-step walk misses the real common ancestor:
    4 -> 3 -> 5 -> 2 and 5 -> 2: header 2 (height 1) is an ancestor of both 4 and 5 (both of height 2), the answer is 404 *)
 Theorem common_ancestor_late_parent_refuted :
   exists s l hs, Valid s /\ l <> [] /\ Forall2 (fun t r => by_hash s t = Some r) l hs /\
@@ -131,9 +124,9 @@ Proof.
   destruct E4 as (r4 & E4 & H4). destruct E5 as (r5 & E5 & H5). destruct E2 as (r2 & E2 & H2).
   exists late_store, [4; 5]%N, [r4; r5]. split; [exact late_valid|]. split; [discriminate|]. split; [repeat constructor; assumption|].
   assert (E: common_ancestor late_store [4; 5]%N = CErrNotFound) by (vm_compute; reflexivity).
-  split; [exact E|]. rewrite E. cbn. intros Hn. apply Hn. exists r2. split.
+  split; [exact E|]. rewrite E. cbv beta iota delta [common_answer_ok]. intros Hn. apply Hn. exists r2. split.
   - intros t [<-|[<-|[]]].
     + apply (walk_reach late_store 4%nat). revert E2. vm_compute. intros E2'. inversion E2'. right. right. right. left. reflexivity.
     + apply (walk_reach late_store 2%nat). revert E2. vm_compute. intros E2'. inversion E2'. right. left. reflexivity.
-  - rewrite H4, H5, H2. vm_compute. reflexivity.
+  - cbv [min_height fold_right]. rewrite H4, H5, H2. vm_compute. reflexivity.
 Qed.
